@@ -315,9 +315,8 @@ func (m *Machine) atReturn(c *Config, fn *ssa.Function, fc *FuncContract, result
 		}
 		m.emit(c, "ensures", e.Label, e.Props, g, "", e.Src)
 	}
-	if fc.HasAssigns {
-		m.frameCheck(c, fn, fc)
-	}
+	// a contract without an assigns clause assigns nothing: its callers assume exactly that
+	m.frameCheck(c, fn, fc)
 	if fc.Covers != "" {
 		m.coverageCheck(c, fn, fc)
 	}
@@ -369,7 +368,7 @@ func (m *Machine) frameCheck(c *Config, fn *ssa.Function, fc *FuncContract) {
 	}
 	var names []string
 	for name := range c.st.ghost {
-		if strings.HasPrefix(name, "@map:") || strings.HasPrefix(name, "@mapfresh:") || strings.HasPrefix(name, "@ch:") {
+		if strings.HasPrefix(name, "@map:") || strings.HasPrefix(name, "@mapfresh:") || name == "@maphavocall" || strings.HasPrefix(name, "@ch:") {
 			continue
 		}
 		names = append(names, name)
